@@ -199,7 +199,10 @@ func (e Engine) Run(t *simrt.Tape, c simrt.Case, x *simrt.Ctx) *simrt.Result {
 	} else {
 		var s *gen.Spec
 		padded := false
-		st := gen.Style{SepSeed: uint64(t.Draw(1 << 30)), FinalNL: 1, Tight: t.Chance(1, 4)}
+		// optional semicolons are dropped in a third of the layouts and the text ends with or without a
+		// newline, in blanks or in a comment: the end marker then follows a directive, a rule body or
+		// a token definition directly
+		st := gen.Style{SepSeed: uint64(t.Draw(1 << 30)), FinalNL: t.Draw(4), Tight: t.Chance(1, 4), DropSemis: t.Chance(1, 3)}
 		if c.Args[0] == -2 {
 			s = gen.GenLargeSpec(t, 150+t.Draw(200))
 			if s == nil {
